@@ -689,7 +689,45 @@ Definition mk_env (code : list Z) (ro : bool) (c : call_in) : env :=
      e_extcode := fun a => match find_acct a (ci_accts c) with Some x => ac_code x | None => [] end;
      e_acct_kind := fun a => match find_acct a (ci_accts c) with Some x => ac_kind x | None => 0 end |}.
 
-Definition FUEL : nat := Z.to_nat 400000.
+(* 2^n steps without building a unary number: run_pow n s = run (2^n) s (Proofs.run_pow_spec) *)
+Fixpoint run_pow (ops : word_ops) (E : env) (n : nat) (s : mstate) : run_res :=
+  match n with
+  | O => run ops E 1 s
+  | S k => match run_pow ops E k s with
+           | OutOfFuel s' => run_pow ops E k s'
+           | r => r
+           end
+  end.
+Definition FUEL_LOG2 : nat := 19.     (* 524288 steps *)
+
+(* a byte string written as (length, big-endian value): two tokens instead of a long list literal *)
+Definition bz (len v : Z) : list Z := Z_to_be (Z.to_nat len) v.
+
+(* the harness VM's configuration (harness/src/vvm*.rs, harness/src/bin/evm_prog.rs) *)
+Definition VM_EPOCH : Z := 100000.
+Definition VM_RANDAO : Z := be_to_Z [1;2;3;4;5;6;7;8;9;10;11;12;13;14;15;16;17;18;19;20;21;22;23;24;25;26;27;28;29;30;31;32].
+Definition VM_TIPSET_HASH : Z := be_to_Z [102;97;107;101;116;105;112;115;101;116].   (* "faketipset" *)
+Definition HASH_EMPTY : Z := 0xc5d2460186f7233c927e7db2dcc703c0e500b653ca82273b7bfad8045d85a470.
+Definition HASH_NATIVE : Z := 0xbcc90f2d6dada5b18e155c17a1c0a55920aae94f39857d39d0d8ed07ae8f228b.
+Definition ECHO_CODE : list Z := [54; 95; 95; 55; 54; 95; 243].
+Definition REVERTER_CODE : list Z := [54; 95; 95; 55; 54; 95; 253].
+Definition id_eth (id : Z) : Z := 255 * 2 ^ 152 + id.
+
+(* compact constructor used by the harness.  origin: the sending account (0xff.. form of its id);
+   extra: accounts beyond the standard ones (the contract itself) *)
+Definition mkci (calldata : list Z) (balance address origin caller value origin_balance echo reverter : Z)
+  (echo_hash reverter_hash : Z) (keccak : list (list Z * Z)) (extra : list acct) (ext : list ext_res) : call_in :=
+  {| ci_calldata := calldata; ci_balance := balance;
+     ci_ctx := [(48, address); (50, origin); (51, caller); (52, value); (58, 0); (65, 0); (66, 0);
+                (67, VM_EPOCH); (68, VM_RANDAO); (69, 10000000000); (70, 0); (72, 0); (90, 2 ^ 32 - 1)];
+     ci_keccak := keccak;
+     ci_accts := extra ++
+       [ {| ac_addr := origin; ac_kind := 0; ac_balance := origin_balance; ac_size := 0; ac_hash := HASH_EMPTY; ac_code := [] |};
+         {| ac_addr := id_eth 1; ac_kind := 2; ac_balance := 0; ac_size := 1; ac_hash := HASH_NATIVE; ac_code := [254] |};
+         {| ac_addr := echo; ac_kind := 1; ac_balance := 0; ac_size := 7; ac_hash := echo_hash; ac_code := ECHO_CODE |};
+         {| ac_addr := reverter; ac_kind := 1; ac_balance := 0; ac_size := 7; ac_hash := reverter_hash; ac_code := REVERTER_CODE |} ];
+     ci_blockhash := [(VM_EPOCH - 1, VM_TIPSET_HASH); (VM_EPOCH - 256, VM_TIPSET_HASH)];
+     ci_ext := ext |}.
 (* run-length notation used by the harness when it prints byte strings *)
 Definition rep (b n : Z) : list Z := repeat b (Z.to_nat n).
 
@@ -711,7 +749,7 @@ Fixpoint insert_kv (x : Z * Z) (l : list (Z * Z)) : list (Z * Z) :=
 Definition sorted_kv (m : gmap Z Z) : list (Z * Z) := fold_right insert_kv [] (map_to_list m).
 Definition enc_map (m : gmap Z Z) : list Z :=
   let l := sorted_kv m in zlen l :: flat_map (fun kv : Z * Z => [fst kv; snd kv]) l.
-Definition enc_bytes (bs : list Z) : list Z := zlen bs :: bs.
+Definition enc_bytes (bs : list Z) : list Z := [zlen bs; be_to_Z bs].
 (* the harness sees messages (calls, creates, the selfdestruct transfer) and events as two separate
    ordered lists, and cannot tell a CALL from a STATICCALL message *)
 Definition enc_ev (e : ext_ev) : list Z :=
@@ -719,7 +757,7 @@ Definition enc_ev (e : ext_ev) : list Z :=
   | EvCall kind dst v input => [1; (if kind =? 1 then 1 else 0); dst; v] ++ enc_bytes input
   | EvCreate two v salt init => [2; b2z two; v; salt] ++ enc_bytes init
   | EvSelfdestruct b => [3; b]
-  | EvLog topics data => [4] ++ enc_bytes topics ++ enc_bytes data
+  | EvLog topics data => [4] ++ (zlen topics :: topics) ++ enc_bytes data
   end.
 Definition is_log (e : ext_ev) : bool := match e with EvLog _ _ => true | _ => false end.
 Definition enc_log (l : list ext_ev) : list Z :=
@@ -740,7 +778,7 @@ Definition cstepo (st : cstate) (o : cop) : cstate * list Z :=
   match o with
   | Deploy initcode c =>
       let E := mk_env initcode false c in
-      match run spec_ops E FUEL (init_state ∅ (ci_balance c) (ci_ext c)) with
+      match run_pow spec_ops E FUEL_LOG2 (init_state ∅ (ci_balance c) (ci_ext c)) with
       | OutOfFuel _ => (st, OBS_OUT_OF_FUEL)
       | Done out s =>
           match out with
@@ -759,7 +797,7 @@ Definition cstepo (st : cstate) (o : cop) : cstate * list Z :=
         (st, obs_run (Return []) (cs_storage st) ∅ [] ++ [0; 0])
       else
       let E := mk_env (cs_code st) false c in
-      match run spec_ops E FUEL (init_state (cs_storage st) (ci_balance c) (ci_ext c)) with
+      match run_pow spec_ops E FUEL_LOG2 (init_state (cs_storage st) (ci_balance c) (ci_ext c)) with
       | OutOfFuel _ => (st, OBS_OUT_OF_FUEL)
       | Done out s =>
           (* stack depth at halt; memory size at halt unless the run failed (a failing instruction
@@ -778,7 +816,7 @@ Definition cstepo (st : cstate) (o : cop) : cstate * list Z :=
         (st, [1] ++ enc_bytes [] ++ enc_log [])
       else
       let E := mk_env (cs_code st) true c in
-      match run spec_ops E FUEL (init_state (cs_storage st) (ci_balance c) (ci_ext c)) with
+      match run_pow spec_ops E FUEL_LOG2 (init_state (cs_storage st) (ci_balance c) (ci_ext c)) with
       | OutOfFuel _ => (st, OBS_OUT_OF_FUEL)
       | Done out s =>
           (* what a STATICCALLing caller sees: success flag and return data; storage cannot change *)
